@@ -649,7 +649,7 @@ func (w *world) execute(c Case, cmd string, tx *types.Tx) {
 	}
 	tracef("delivered: accepted by the validator")
 	ctx.Count("delivered", 1)
-	w.probe(c, cmd)
+	w.probe(c, cmd, "on the state after the block with the case's transaction was connected")
 	w.later(c, cmd, tx.GetBody().GetAccount())
 	w.reset()
 }
@@ -708,12 +708,58 @@ func (w *world) later(c Case, cmd string, account []byte) {
 			w.ctx.Count("later_accepted", 1)
 		}
 	}
+	if cmd != "v1voteDAO" {
+		return
+	}
+	// a DAO vote the system accepted becomes the active parameter once two thirds of the stake agree:
+	// the other stakers of the pre-state (A and D hold equal stakes) cast the same ballot one lock
+	// period later, the parameters are committed as at the end of a block, and admission must still
+	// be total under whatever value has become active
+	var perr error
+	pi := guard(func() {
+		bs := state.NewBlockState(n.CS.SDB().OpenNewStateDB(best.GetHeader().GetBlocksRootHash()))
+		receiver, e := state.GetAccountState([]byte(types.AergoSystem), bs.StateDB)
+		if e != nil {
+			panic(e)
+		}
+		scs, e := statedb.OpenContractState(receiver.IDNoPadding(), receiver.State(), bs.StateDB)
+		if e != nil {
+			panic(e)
+		}
+		for _, v := range []int{0, 3} {
+			if string(w.sym.addrs[v]) == string(account) {
+				continue
+			}
+			sender, e := state.GetAccountState(w.sym.addrs[v], bs.StateDB)
+			if e != nil {
+				panic(e)
+			}
+			tb := &types.TxBody{Nonce: sender.Nonce() + 1, Account: w.sym.addrs[v], Recipient: []byte(types.AergoSystem), Amount: []byte{},
+				Payload: []byte(c.Payload), Type: types.TxType_GOVERNANCE, ChainIdHash: n.ChainIDHashFor(best.BlockNo() + 1)}
+			if _, perr = system.ExecuteSystemTx(scs, tb, sender, receiver, &types.BlockHeaderInfo{No: no, ForkVersion: n.Cfg.Hardfork.Version(no)}); perr != nil {
+				return
+			}
+		}
+		system.CommitParams(true)
+	})
+	w.dirty = true
+	w.ctx.Count("later_unanimous_ballots", 1)
+	if pi != nil {
+		w.ctx.Count("panics_later", 1)
+		w.violation(sigOf(pi, cmd), true, "execution of the same DAO ballot by the other stakers one lock period later", c, pi.String())
+		return
+	}
+	if perr != nil {
+		return
+	}
+	w.ctx.Count("later_unanimous_ballots_accepted", 1)
+	w.probe(c, cmd, "after every staker has cast the case's DAO ballot and the parameters were committed")
 }
 
 // probe: after the block is connected, the admission entry points must still be
 // total on the new state (a governance command that stored a malformed record
 // would make every later validation crash).
-func (w *world) probe(c Case, cmd string) {
+func (w *world) probe(c Case, cmd string, where string) {
 	n := w.p.Node
 	best := n.Best()
 	mp := mempool.VerifC14New(n.Cfg, n.CS, w.hub, best)
@@ -737,7 +783,7 @@ func (w *world) probe(c Case, cmd string) {
 				_ = mp.VerifC14Put(t)
 			}
 		}); pi != nil {
-			w.violation(sigOf(pi, cmd), true, "admission of "+pr.name+" on the state after the block with the case's transaction was connected", c, pi.String())
+			w.violation(sigOf(pi, cmd), true, "admission of "+pr.name+" "+where, c, pi.String())
 			return
 		}
 	}
@@ -834,7 +880,7 @@ func main() {
 	xplor.Main(xplor.Check{
 		ID:    "C14",
 		Level: "exploration",
-		Rule:  "every transaction body of a bounded grammar is run through Validate, ValidateWithSenderState, mempool.verifyTx and mempool.put (each under its own recover; unsigned, garbage-signed and properly signed), and every transaction the pool admits through the real producer path (one block per transaction) and - once per outcome class per worker, see NOTES - the real validator path followed by admission probes on the resulting state and, for v1 commands, by the direct execution (system.ExecuteSystemTx on a scratch block state) of the sender's next BP vote, DAO vote and unstake one lock period (86400 blocks) later. Grammar: grid 'gov' = GOVERNANCE transactions whose payload is {Name,Args} with Name in the 15 governance command names of the code + 1 unknown and Args = every list of length <= 2 (thorough 3) over 13 value shapes (valid value for the slot, a well-formed peer id of another length (34-byte sha2-256 multihash), non-address string, registered name, unregistered name, empty string, huge numeric string, number, huge number, null, bool, {}, []) when sent to the command's own contract, <= 1 (thorough 2) to the other two governance contracts, <= 1 to 4 non-governance recipients, plus 6 malformed payloads per command and 17 command-independent ones (not JSON, wrong JSON types, duplicate / lower-case keys, 1e999, 12000-deep nesting, > TxMaxSize), x 6 sender states (staked+voted, name owner, funded, staked, empty, sender given by name) x the amount the command needs and 0; grid 'field' = 12 account classes (byte lengths 0,1,12,33,34,64, nil, names, special account, non-key bytes) x 14 recipient classes x 9 types (8 + invalid) x 7 payloads at amount 1 / standard price, and every amount class x every gas price class (lengths 0,1,12,33 padded,33,34,64) + nonce-low / nonce-gap / foreign chain id / wrong hash for a subset of accounts and recipients; x networks {hardfork version 0,2,3,4,5} x {public, private} (quick: 6 of the 10 combinations covering every version and both kinds) x pre-state warm (thorough: + genesis with the quick grammar). evaluations = bodies; distinct_nontrivial = distinct (net, pre-state, body) that pass Validate or are governance transactions to a governance contract (their payload reaches a JSON/argument parser); a body rejected by a field check before any payload parsing is trivial",
+		Rule:  "every transaction body of a bounded grammar is run through Validate, ValidateWithSenderState, mempool.verifyTx and mempool.put (each under its own recover; unsigned, garbage-signed and properly signed), and every transaction the pool admits through the real producer path (one block per transaction) and - once per outcome class per worker, see NOTES - the real validator path followed by admission probes on the resulting state and, for v1 commands, by the direct execution (system.ExecuteSystemTx on a scratch block state) of the sender's next BP vote, DAO vote and unstake one lock period (86400 blocks) later. Grammar: grid 'gov' = GOVERNANCE transactions whose payload is {Name,Args} with Name in the 15 governance command names of the code + 1 unknown and Args = every list of length <= 2 (thorough 3) over 15 value shapes (valid value for the slot, a well-formed peer id of another length (34-byte sha2-256 multihash), the numeric strings 0 and -1, non-address string, registered name, unregistered name, empty string, huge numeric string, number, huge number, null, bool, {}, []) when sent to the command's own contract, <= 1 (thorough 2) to the other two governance contracts, <= 1 to 4 non-governance recipients, plus 6 malformed payloads per command and 17 command-independent ones (not JSON, wrong JSON types, duplicate / lower-case keys, 1e999, 12000-deep nesting, > TxMaxSize), x 6 sender states (staked+voted, name owner, funded, staked, empty, sender given by name) x the amount the command needs and 0; grid 'field' = 12 account classes (byte lengths 0,1,12,33,34,64, nil, names, special account, non-key bytes) x 14 recipient classes x 9 types (8 + invalid) x 7 payloads at amount 1 / standard price, and every amount class x every gas price class (lengths 0,1,12,33 padded,33,34,64) + nonce-low / nonce-gap / foreign chain id / wrong hash for a subset of accounts and recipients; x networks {hardfork version 0,2,3,4,5} x {public, private} (quick: 6 of the 10 combinations covering every version and both kinds) x pre-state warm (thorough: + genesis with the quick grammar). evaluations = bodies; distinct_nontrivial = distinct (net, pre-state, body) that pass Validate or are governance transactions to a governance contract (their payload reaches a JSON/argument parser); a body rejected by a field check before any payload parsing is trivial",
 		Assumptions: []string{
 			"contract VM = pure-Go stub (overlay/contract/vm_stub_verif.go): nothing is concluded about Lua execution of CALL/DEPLOY/FEEDELEGATION payloads, only about the admission and dispatch code around it",
 			"the pool is driven synchronously through verifyTx/put (what TxVerifier.Receive calls) on a MemPool built by NewMemPoolService on the real ChainService; the actor system is not started; CheckFeeDelegation requests are answered by the body of the chain worker's handler",
